@@ -46,8 +46,8 @@ impl Prop for C04 {
 
     fn profiles(tier: Tier) -> Vec<Profile> {
         match tier {
-            Tier::Quick => vec![prof("const", 60_000), prof("wild", 30_000), prof("huge", 42_000), prof("end", 30_000), prof("capi", 12_000), prof("many", 2_000)],
-            Tier::Thorough => vec![prof("const", 800_000), prof("wild", 400_000), prof("huge", 500_000), prof("end", 300_000), prof("capi", 150_000), prof("many", 30_000)],
+            Tier::Quick => vec![prof("const", 60_000), prof("wild", 30_000), prof("huge", 42_000), prof("end", 30_000), prof("capi", 12_000), prof("capi_long", 1_500), prof("many", 2_000)],
+            Tier::Thorough => vec![prof("const", 800_000), prof("wild", 400_000), prof("huge", 500_000), prof("end", 300_000), prof("capi", 150_000), prof("capi_long", 20_000), prof("many", 30_000)],
         }
     }
 
@@ -91,6 +91,25 @@ impl Prop for C04 {
                 mp.p_trans[12] = 0.6;
                 let hp = HistParams { max_calls: 8, max_batch: 6, ..HistParams::default() };
                 return fw_case(65..=140, &mp, &hp, true, 4);
+            }
+            "capi_long" => {
+                // one call with hundreds of events: more than any chunk a C wrapper might process at a time
+                let mp = crate::props::c20::deterministic_params();
+                let hp = HistParams { min_calls: 2, max_calls: 12, max_batch: 8, ..HistParams::default() };
+                return (fw_case(1..=4, &mp, &hp, true, 0), 65usize..700)
+                    .prop_map(|(mut c, len)| {
+                        // the generated history folded into one long call, followed by the history itself
+                        let flat: Vec<Ev> = c.calls.iter().flat_map(|x| x.events.iter().copied()).collect();
+                        if !flat.is_empty() {
+                            let long: Vec<Ev> = flat.iter().cycle().take(len).copied().collect();
+                            c.calls.insert(0, Call { clock: Clock::Add(1), events: long });
+                        }
+                        c.machines = c.machines.into_iter().map(crate::props::c20::clock_independent).collect();
+                        c.max_blocking_frac = Fx(0.0);
+                        c.seed = CAPI_MARK;
+                        c
+                    })
+                    .boxed();
             }
             "capi" => {
                 // the same contract at the C API, whose caller buffer is sized num_machines:
